@@ -548,6 +548,45 @@ func maintained(b *harness.B, c *chaingen.Chain, s sample, wit map[string]any) {
 	}
 }
 
+// ancestorProvenance: the timestamp of the ancestor 500 blocks back, which the pre-Oak retarget consumes, is handed
+// to ApplyBlock by the caller. Taken from the node's own in-memory copy of that block it may carry a sub-second part,
+// taken from a decoded copy (same ID) it does not: the state reached must be the same.
+func ancestorProvenance(b *harness.B) {
+	n := &consensus.Network{Name: "c09-ancestor", InitialCoinbase: types.Siacoins(300000), MinimumCoinbase: types.Siacoins(30000),
+		InitialTarget: types.BlockID{0xFF}, BlockInterval: 10 * time.Minute, MaturityDelay: 3}
+	n.HardforkOak.Height, n.HardforkOak.FixHeight = 100000, 100000
+	n.HardforkOak.GenesisTimestamp = time.Unix(1700000000, 0).UTC()
+	n.HardforkASIC.Height, n.HardforkASIC.OakTime, n.HardforkASIC.OakTarget, n.HardforkASIC.NonceFactor = 100000, 10000*time.Second, n.InitialTarget, 1009
+	n.HardforkFoundation.Height = 100000
+	n.HardforkV2.AllowHeight, n.HardforkV2.RequireHeight, n.HardforkV2.FinalCutHeight = 200000, 300000, 400000
+	t0 := n.HardforkOak.GenesisTimestamp
+	g := types.Block{Timestamp: t0}
+	cs, _ := consensus.ApplyBlock(n.GenesisState(), g, consensus.V1BlockSupplement{}, time.Time{})
+	mk := func(cs consensus.State, ts time.Time) types.Block {
+		blk := types.Block{ParentID: cs.Index.ID, Timestamp: ts, MinerPayouts: []types.SiacoinOutput{{Address: types.VoidAddress, Value: cs.BlockReward()}}}
+		for i := 0; i < 1<<16 && blk.ID().CmpWork(cs.ChildTarget) < 0; i++ {
+			blk.Nonce++
+		}
+		return blk
+	}
+	for cs.Index.Height < 499 {
+		blk := mk(cs, t0.Add(time.Duration(cs.Index.Height+1)*n.BlockInterval))
+		cs, _ = consensus.ApplyBlock(cs, blk, consensus.V1BlockSupplement{}, t0)
+	}
+	blk := mk(cs, t0.Add(500*n.BlockInterval))
+	if consensus.ValidateBlock(cs, blk, consensus.V1BlockSupplement{}) != nil {
+		b.Inconclusive("ancestor provenance: block 500 not accepted")
+		return
+	}
+	wire, _ := consensus.ApplyBlock(cs, blk, consensus.V1BlockSupplement{}, t0)
+	mem, _ := consensus.ApplyBlock(cs, blk, consensus.V1BlockSupplement{}, t0.Add(900*time.Millisecond))
+	b.Eval(1)
+	b.Count("ancestor_timestamp_provenance_comparisons", 1)
+	if !bytes.Equal(enc(wire), enc(mem)) {
+		b.Violate("C09/provenance/sub-second-ancestor-timestamp-vs-decoded-copy", fmt.Sprintf("the pre-Oak retarget at height 500 gives child target %v with the ancestor's timestamp as decoded and %v with the same block's in-memory timestamp 0.9 s later", wire.ChildTarget, mem.ChildTarget), nil)
+	}
+}
+
 // policyProvenance: a time lock built in memory with a sub-second part encodes (and hashes into its address) as
 // whole seconds; the in-memory policy and its decoded copy are the same policy and must get the same verdict.
 func policyProvenance(b *harness.B) {
@@ -878,6 +917,7 @@ func run(b *harness.B) {
 	race := b.Batch%4 == 3
 	if b.Batch == 0 {
 		policyProvenance(b)
+		ancestorProvenance(b)
 	}
 	nNets := b.Pick(2, 6)
 	for i := 0; i < nNets; i++ {
